@@ -188,6 +188,8 @@ fn run_c04(run: &mut Run) {
     let n = literal_texts().len();
     run.literals("literals", &(0..n as u32).map(|i| vec![0, i]).collect::<Vec<_>>(), &c04_literal);
     run.explore("render-read", run.tier.pick(80_000, 1_000_000), 2500, &c04_case);
+    // the same, each case in a thread of its own (per-thread state of the code starts from scratch)
+    run.explore_fresh("render-read", run.tier.pick(3_000, 40_000), 2500, &c04_case);
     run.explore("negative", run.tier.pick(20_000, 200_000), 1200, &c04_negative);
 }
 fn case_c04(sub: &str) -> Option<Box<CaseFn<'static>>> {
@@ -402,6 +404,8 @@ fn run_c05(run: &mut Run) {
     run.enumerate("version-gated", 18, &c05_gated);
     run.enumerate("tolerated-statements", 6 * C05_TOLERATED.len() as u64, &c05_tolerated);
     run.explore("write-read", run.tier.pick(120_000, 1_500_000), 2500, &c05_case);
+    // the same, each case in a thread of its own (per-thread state of the code starts from scratch)
+    run.explore_fresh("write-read", run.tier.pick(3_000, 40_000), 2500, &c05_case);
     run.explore("lefrw-binary", run.tier.pick(400, 4_000), 2500, &c05_lefrw);
 }
 fn case_c05(sub: &str) -> Option<Box<CaseFn<'static>>> {
